@@ -9,15 +9,23 @@ from bitstring import utils
 CACHE_SIZE = 256
 
 
+def _apply_scale(value, scale: Union[int, float], divide: bool = False):
+    try:
+        return value / scale if divide else value * scale
+    except OverflowError:
+        # e.g. a float combined with an int scale that is beyond the range of a float.
+        raise ValueError(f"The scale factor {scale} is too large to be applied to the value {value}.")
+
+
 def scaled_get_fn(get_fn, s: Union[int, float]):
     def wrapper(*args, scale=s, **kwargs):
-        return get_fn(*args, **kwargs) * scale
+        return _apply_scale(get_fn(*args, **kwargs), scale)
     return wrapper
 
 
 def scaled_set_fn(set_fn, s: Union[int, float]):
     def wrapper(bs, value, *args, scale=s, **kwargs):
-        return set_fn(bs, value / scale, *args, **kwargs)
+        return set_fn(bs, _apply_scale(value, scale, divide=True), *args, **kwargs)
     return wrapper
 
 
@@ -26,8 +34,8 @@ def scaled_read_fn(read_fn, s: Union[int, float]):
         val = read_fn(*args, **kwargs)
         if isinstance(val, tuple):
             val, pos = val
-            return val * scale, pos
-        return val * scale
+            return _apply_scale(val, scale), pos
+        return _apply_scale(val, scale)
     return wrapper
 
 
